@@ -42,6 +42,12 @@ def handlers(F, prefix):
 _paths_cache = {}
 
 
+STUBS = {
+    "": None,
+    "recv-handlers": lambda callee: callee.get("name", "").startswith("process_recv_v"),
+}
+
+
 def paths(F, fn_path, loop_k=1, closure_k=1, tag=""):
     """Abstract paths of a function (cached in-process and on disk, keyed by the fact hash)."""
     key = (F.hash, F.cfg, fn_path, loop_k, closure_k, tag)
@@ -58,10 +64,8 @@ def paths(F, fn_path, loop_k=1, closure_k=1, tag=""):
             return ps
         except Exception:
             pass
-    ex = explore.Explorer(F, loop_k=loop_k, closure_k=closure_k)
+    ex = explore.Explorer(F, loop_k=loop_k, closure_k=closure_k, stub_pred=STUBS[tag])
     ps = ex.run(fn_path)
-    for p in ps:
-        p.interned = None
     res = {"paths": ps, "interned": ex.interned_rev, "opaque": sorted(ex.stats["opaque"]), "inlined": sorted(ex.stats["inlined"])}
     tmp = fname + ".%d.tmp" % os.getpid()
     with open(tmp, "wb") as fh:
@@ -166,4 +170,72 @@ def cons_on_field(p, field):
             return ("discr", c, k[2])
         if k[0] == "init" and k[1] == ("self",) and len(k[2]) == 1 and k[2][0][2] == field:
             return ("val", c, None)
+    return None
+
+
+# ------------------------------------------------------- enum constraints
+def enum_domain(F, adt):
+    if adt in explore.BUILTIN_DISCR:
+        return dict(explore.BUILTIN_DISCR[adt])
+    a = F.adts.get(adt)
+    if not a:
+        raise FactError("unknown enum " + adt)
+    return {v.get("discr", v["idx"]): v["name"] for v in a["variants"]}
+
+
+def possible(F, p, term, adt):
+    """Set of variant names the enum-valued term may have under the path's constraints."""
+    dom = enum_domain(F, adt)
+    c = p.cons.get(("discr", term, adt))
+    if c is None:
+        return set(dom.values())
+    if c[0] == "eq":
+        return {dom.get(c[1], "?%s" % c[1])}
+    return {n for d, n in dom.items() if d not in c[1]}
+
+
+def field_term(name, F=None):
+    """Term of the entry value of self.<name>."""
+    fs = gc_fields(F) if F is not None else None
+    idx = fs[name]["i"] if fs else None
+    return ("init", ("self",), (("f", idx, name),))
+
+
+def status_at_entry(F, p):
+    return possible(F, p, field_term("status", F), STATUS)
+
+
+def version_at_entry(F, p):
+    return possible(F, p, field_term("protocol_version", F), VERSION)
+
+
+def bool_field_at_entry(F, p, name):
+    """{True,False} subset possible for boolean field at entry."""
+    t = field_term(name, F)
+    c = p.cons.get(t)
+    if c is None:
+        return {True, False}
+    if c[0] == "eq":
+        return {c[1] == 1}
+    return {b for b in (True, False) if (1 if b else 0) not in c[1]}
+
+
+def call_terms(p, name_suffix):
+    """All opaque call effects whose callee path ends with the given method name."""
+    return [e for e in p.effects if e[0] == "call" and (e[1].endswith("::" + name_suffix) or e[1] == name_suffix)]
+
+
+def sends(p):
+    """Indices and packet values of RequestSendPacket events in the returned word."""
+    ev = p.events() or ()
+    return [(i, e) for i, e in enumerate(ev) if is_event(e, "RequestSendPacket")]
+
+
+def packet_kind_of(v):
+    """Best-effort packet type name of an abstract packet value (from `into`/builder provenance)."""
+    s = repr(v)
+    import re as _re
+    m = _re.findall(r"mqtt::packet::(v3_1_1|v5_0)::(\w+)::", s)
+    if m:
+        return "%s::%s" % m[-1]
     return None
